@@ -130,6 +130,8 @@ def faults(r, nl):
     add("anon-block-in-namespace", '<%namespace name="nsb_">' + nl + '<%def name="fine_()">ok</%def>' + nl + "<%block>a</%block>" + nl + "</%namespace>", "Compile", off=2, col="line-start")
     add("named-block-in-call", '<%call expr="fcall_()">' + nl + "text" + nl + '<%block name="incall_">a</%block></%call>', "Compile", off=2, col="line-start")
     add("named-block-in-nested-def", '<%def name="h2_()">' + nl + '<%def name="h3_()">' + nl + nl + '<%block name="inner2_">a</%block></%def></%def>', "Compile", off=3, col="line-start")
+    add("duplicate-block-nested-in-itself", '<%block name="dupn_">' + nl + "text" + nl + '<%block name="dupn_">b</%block>' + nl + "</%block>", "Compile", off=2, col="line-start")
+    add("duplicate-block-two-levels-down", '<%block name="dupm_">' + nl + '<%block name="mid_">' + nl + nl + '<%block name="dupm_">b</%block></%block>' + nl + "</%block>", "Compile", off=3, col="line-start")
     add("missing-attribute", "<%include/>", "Compile")
     add("missing-def-name", "<%def>x</%def>", "Compile")
     add("illegal-attribute", '<%def name="k()" bogus="1">x</%def>', "Compile")
